@@ -30,7 +30,7 @@ TP == <<
   WhenP(2, And_(H_(Pv, "mgr"), B_("hasTag", Pv, G_(G_(Pv, "mgr"), "s")))),
   \* whole records compared: every attribute of the record type matters, optional ones included
   WhenP(2, B_("eq", G_(Pv, "rec"), G_(G_(Rv, "owner"), "rec"))),
-  WhenP(2, B_("contains", <<"set", <<G_(G_(Rv, "owner"), "rec"), <<"record", [inner |-> LitL(7)], <<"inner">>>>>>>>, G_(Pv, "rec"))),
+  WhenP(2, B_("contains", <<"set", <<G_(G_(Rv, "owner"), "rec"), G_(<<"lit", TU2>>, "rec")>>>>, G_(Pv, "rec"))),
   \* extension values built from literals (no schema support needed): ranges with a CIDR receiver, decimals, datetimes
   WhenP(2, XC("isInRange", <<XC("ip", <<LitS(<<49, 48, 46, 48, 46, 48, 46, 48, 47, 56>>)>>), XC("ip", <<LitS(<<49, 48, 46, 48, 46, 48, 46, 48, 47, 49, 54>>)>>)>>)),   \* 10.0.0.0/8 in 10.0.0.0/16
   WhenP(2, XC("isInRange", <<XC("ip", <<LitS(<<49, 48, 46, 48, 46, 48, 46, 48, 47, 49, 54>>)>>), XC("ip", <<LitS(<<49, 48, 46, 48, 46, 48, 46, 48, 47, 56>>)>>)>>)),   \* 10.0.0.0/16 in 10.0.0.0/8
@@ -45,6 +45,13 @@ TP == <<
 >>
 NTP == Len(TP)
 WithId(p, id, eff) == [p EXCEPT !.id = id, !.effect = eff]
+\* template links: two links of ONE template (shared tid), one of which binds the slot to an entity whose type makes the
+\* scope unsatisfiable (a principal is never `in` a Doc), in both insertion orders, alone and next to a static forbid
+Lnk(id, slotv, body) == [id |-> id, effect |-> "permit", principal |-> <<"inslot">>, action |-> <<"eq", TView>>, resource |-> AnyC,
+                         conds |-> <<<<"when", body>>>>, slots |-> [principal |-> slotv], template |-> TRUE, tid |-> "T"]
+LnkBodies == <<G_(Cv, "flag"), Conn(1, Guard(1), TT_, Use(1)), B_("eq", G_(Rv, "owner"), Pv)>>
+LinkSets == UNION {{<<Lnk("p1", TD, b), Lnk("p2", TG, b)>>, <<Lnk("p1", TG, b), Lnk("p2", TD, b)>>, <<Lnk("p1", TG2, b), Lnk("p2", TG, b)>>,
+                    <<Lnk("p1", TD, b), Lnk("p2", TG, b), WithId(TP[21], "p3", "forbid")>>} : b \in {LnkBodies[i] : i \in 1..Len(LnkBodies)}}
 \* with RANDPOLS=<file> in the environment the sets are read from that file instead: ndjson lines {"pols": [...]} of
 \* strictly valid random policies produced by the harness generator gen_typed.rs (the wire form IS the abstract form)
 RandSets(dummy) == LET recs == ndJsonDeserialize(IOEnv.RANDPOLS) IN {recs[i].pols : i \in 1..Len(recs)}
@@ -53,5 +60,7 @@ BuiltinSets(dummy) == {<<WithId(TP[i], "p1", TP[i].effect)>> : i \in 1..NTP}
            \cup {<<WithId(TP[i], "p1", "permit"), WithId(TP[20], "p2", "permit"), WithId(TP[j], "p3", "forbid")>> : i \in {2, 8, 16}, j \in {3, 7, 17}}
 SetHash(x) == IF x[1].conds = <<>> THEN Len(x) ELSE Len(x) + Len(x[1].conds[1][2])
 PolSets == IF "RANDPOLS" \in DOMAIN IOEnv THEN RandSets(0) ELSE BuiltinSets(0)
+\* ... plus the template-link sets (TPE and permission queries)
+PolSetsL == IF "RANDPOLS" \in DOMAIN IOEnv THEN RandSets(0) ELSE BuiltinSets(0) \cup LinkSets
 
 ==============================================================================
